@@ -31,7 +31,7 @@ Do(a) == /\ ~crashed /\ reported = "none"
          /\ UNCHANGED <<cfg, reported, crashed>>
 
 Report == /\ ~crashed /\ reported = "none" /\ Finished(cfg, st)
-          /\ reported' = Reported(st) /\ UNCHANGED <<cfg, st, nfail, crashed>>
+          /\ reported' \in Reports(st) /\ UNCHANGED <<cfg, st, nfail, crashed>>
 
 \* the process is killed: whatever is on disk stays
 Crash == /\ ~crashed /\ reported = "none" /\ crashed' = TRUE /\ UNCHANGED <<cfg, st, nfail, reported>>
@@ -59,8 +59,9 @@ KF_C12_RenameFailedOldGone  == shape = "rename-failed-old-deleted"    \* failed 
 KF_C12_RenameFailedPartial  == shape = "rename-failed-partial-install"
 KF_C12_UnlinkFailedStale    == shape = "unlink-failed-stale-left"
 KF_C12_TombstoneRenameFailed == shape = "tombstone-rename-failed"
-\* ShardMerging: `b.buildError = err` after SetTombstone forgets an earlier rename failure
-KF_C12_ErrorOverwritten == cfg.mode = "compound" /\ (st.failed # {}) /\ reported = "ok"
+\* ShardMerging: `b.buildError = err` after SetTombstone forgets an earlier rename failure, and
+\* setTombstone swallows a failed rename of the sidecar: success reported although an operation failed
+KF_C12_ErrorOverwritten == cfg.mode = "compound" /\ st.err /\ reported = "ok"
 
 CrashAtomic == \/ CrashAtomicStrict
                \/ KF_C12_MultiArtifactRename \/ KF_C12_StaleOldLeft \/ KF_C12_StaleSidecar
@@ -72,6 +73,8 @@ SuccessMeansInstalled == SuccessMeansInstalledStrict \/ KF_C12_ErrorOverwritten
 
 \* without failures a finished run has installed New (sanity of Target/New)
 CleanRunInstalls == (reported # "none" /\ nfail = 0) => (reported = "ok" /\ View(st.disk) = New(cfg))
+\* a failure is never reported as success except in the named shape
+ErrMeansErr == (reported = "ok" /\ st.err) => KF_C12_ErrorOverwritten
 \* a single artifact replacing a single file with nothing stale has no window at all
 SingleArtifactAtomic == (cfg.mode = "full" /\ cfg.k <= 1 /\ cfg.m = 1 /\ ~cfg.sidecar /\ nfail = 0) => CrashAtomicStrict
 
